@@ -142,6 +142,24 @@ def plug : List Frame → Option Scope → Option Scope
 
 def SymTabs.forest (t : SymTabs) : List Scope := t.tops ++ (plug t.stack none).toList
 
+/-- the keys of `_symbol_tables`: closed top-level tables and the open root -/
+def SymTabs.topNames (t : SymTabs) : List Name :=
+  t.tops.map (·.name) ++ (rootName t.stack).toList
+
+/-- `SymbolTables.rollback((names, scope))` where `scope` is the table that was current when
+the stack had `n0` frames: the frames opened since are closed into their parents (they were
+appended there when entered), top-level tables whose name is not in `names` are deleted -/
+def SymTabs.rollback (t : SymTabs) (names : List Name) (n0 : Nat) : SymTabs :=
+  let extra := t.stack.take (t.stack.length - n0)
+  let base := t.stack.drop (t.stack.length - n0)
+  match base with
+  | f :: fs =>
+    { t with tops := t.tops.filter (fun sc => names.contains sc.name),
+             stack := { f with kids := f.kids ++ (plug extra none).toList } :: fs }
+  | [] =>
+    { t with tops := (t.tops ++ (plug extra none).toList).filter (fun sc => names.contains sc.name),
+             stack := [] }
+
 /-! ## class table, node info, oracle -/
 
 /-- what the block matcher reads off a matched object -/
@@ -247,6 +265,10 @@ structure Quirks where
       a `Main_Program0` there, keeps the units collected so far and goes on with the rest of
       the input (the pinned code falls back once, drops what it had and stops reading) -/
   programContinues : Bool := false
+  /-- `Program.__new__` takes `SYMBOL_TABLES.snapshot()` first and calls `rollback` on every
+      exception: top-level tables created by the failed parse are deleted and the scope that
+      was current at entry is current again -/
+  programRollback : Bool := false
   deriving Repr, DecidableEq, Inhabited
 
 structure Table where
@@ -336,6 +358,7 @@ inductive Ev where
   | enter (n : Name)
   | exit
   | remove (n : Name)
+  | rollback
   | ghost (g : Ghost)
   deriving DecidableEq, Repr
 
@@ -396,6 +419,11 @@ def St.remove (st : St) (n : Name) : Bool × St :=
   match st.sym.remove n with
   | some y => (true, { st1 with sym := y })
   | none => (false, st1)
+
+/-- `SYMBOL_TABLES.rollback(snapshot)` for the snapshot taken in state `s0` -/
+def St.rollback (s0 st : St) : St :=
+  { st with sym := st.sym.rollback s0.sym.topNames s0.sym.stack.length,
+            log := Ev.rollback :: st.log }
 
 mutual
 /-- `obj.restore_reader(reader)` -/
@@ -978,6 +1006,12 @@ def programConvert : Outcome → Outcome
   | .raise .internalSyntax => .raise .syntax
   | o => o
 
+/-- the `except` clauses of `Program.__new__` (repaired variant): roll the symbol tables back -/
+def programExit (env : Env) (s0 : St) (o : Outcome) (s2 : St) : St :=
+  match o with
+  | .raise _ => if env.tbl.quirks.programRollback then St.rollback s0 s2 else s2
+  | _ => s2
+
 /-- `cls(reader, parent_cls=pc0)` for every class of the table, by fuel -/
 def eval (env : Env) : Nat → G
   | 0, _, pc, st => (.raise .outOfFuel, pc, st)
@@ -994,7 +1028,7 @@ def eval (env : Env) : Nat → G
     | .main0 cfg scope subs => finish env g c subs (main0Match env f fuel cfg scope st) pc
     | .program unit main0 subs =>
       let r := finish env g c subs (programMatch env f fuel unit main0 st) [c]
-      (programConvert r.1, pc0, r.2.2)
+      (programConvert r.1, pc0, programExit env st (programConvert r.1) r.2.2)
     | .comment => let r := commentNew env st; (r.1, pc0, r.2)
     | .directive => let r := directiveNew env st; (r.1, pc0, r.2)
     | .cpp cs => let r := cppNew env cs st; (r.1, pc0, r.2)
